@@ -2,9 +2,11 @@ package main
 
 import (
 	"fmt"
+	"io"
 	"math/rand"
 	"os"
 	"sort"
+	"sync/atomic"
 	"strings"
 	"time"
 
@@ -37,6 +39,11 @@ func init() { engines["stats"] = engStats }
 //	(8 (topic ...))                           housekeeping: these retained messages expired
 //	(9 ((id pid) ...))                        housekeeping: these in-flight records expired
 //	(10 (topic ...))                          $SYS tick: these topics were retained
+//	(11 id qos pid retainop topic rejected)   PUBLISH QoS 1/2 while every write to the client fails (broken connection)
+//	(12 id pid)                               PUBREL (reason 0) while every write to the client fails
+//	counters: the four reported/actual values, then pairs (reported actual) of the traffic counters recounted by
+//	the harness: packets received, messages received, packets sent, messages sent; after a $SYS tick also clients
+//	total and clients disconnected
 //	dels = ((id pid outcome) ...)  outcome 0 stored, 1 stored then rolled back (pending-writes queue full)
 //	imm  = () or (pid): the deferred record sent by processPacket's NextImmediate block
 type statsRun struct {
@@ -47,6 +54,36 @@ type statsRun struct {
 	debug bool
 	log   []string
 	bad   bool
+	// recounts for the traffic counters: what the harness fed to the broker and what reached the connections
+	recvPk, recvMsg, sentPk, sentMsg int64
+	sysTick                          bool // the step was a $SYS tick: ClientsTotal / ClientsDisconnected have just been refreshed
+}
+
+// send / connect / drain wrap the broker calls and keep the recounts.
+func (r *statsRun) send(c *broker.Conn, pk packets.Packet) error {
+	r.recvPk++
+	if pk.FixedHeader.Type == packets.Publish {
+		r.recvMsg++
+	}
+	return r.b.SendPacket(c, pk)
+}
+
+func (r *statsRun) connect(pk packets.Packet) *broker.Conn {
+	r.recvPk++
+	return r.b.Connect("10.0.0.1:1", pk)
+}
+
+func (r *statsRun) drain() []broker.Out {
+	outs := r.b.Drain()
+	for _, o := range outs {
+		for _, q := range o.Packets {
+			r.sentPk++
+			if q.FixedHeader.Type == packets.Publish {
+				r.sentMsg++
+			}
+		}
+	}
+	return outs
 }
 
 func zs(n int64) sx.V {
@@ -147,10 +184,31 @@ func (r *statsRun) end(ops sx.L, evs []broker.HookEvent, connectID string) {
 			r.bad = true
 		}
 	}
+	r.drain() // whatever the step wrote and nobody looked at yet
 	s := r.b.Srv.VerifSnapshot()
 	r.prev = s
+	info := r.b.Srv.Info
+	pair := func(reported, actual int64) sx.V { return sx.L{zs(reported), zs(actual)} }
+	extra := sx.L{
+		pair(atomic.LoadInt64(&info.PacketsReceived), r.recvPk), pair(atomic.LoadInt64(&info.MessagesReceived), r.recvMsg),
+		pair(atomic.LoadInt64(&info.PacketsSent), r.sentPk), pair(atomic.LoadInt64(&info.MessagesSent), r.sentMsg),
+	}
+	if r.sysTick {
+		total := int64(len(s.Clients))
+		extra = append(extra, pair(atomic.LoadInt64(&info.ClientsTotal), total),
+			pair(atomic.LoadInt64(&info.ClientsDisconnected), total-int64(s.ActualConnected)))
+		r.sysTick = false
+	}
 	r.steps = append(r.steps, sx.L{ops, sx.L{zs(s.InfoConnected), zs(s.InfoSubs), zs(s.InfoRetained), zs(s.InfoInflight),
-		sx.N(uint64(s.ActualSubs)), sx.N(uint64(s.ActualRetained)), sx.N(uint64(s.ActualInflight)), sx.N(uint64(s.ActualConnected))}})
+		sx.N(uint64(s.ActualSubs)), sx.N(uint64(s.ActualRetained)), sx.N(uint64(s.ActualInflight)), sx.N(uint64(s.ActualConnected)), extra}})
+	if r.debug {
+		for i, e := range extra {
+			if sx.String(e.(sx.L)[0]) != sx.String(e.(sx.L)[1]) {
+				r.log = append(r.log, fmt.Sprintf("   extra counter %d: %s", i, sx.String(e)))
+				r.bad = true
+			}
+		}
+	}
 	if r.debug {
 		mark := ""
 		if s.InfoConnected != int64(s.ActualConnected) || s.InfoSubs != int64(s.ActualSubs) ||
@@ -223,8 +281,8 @@ func engStats(seed int64, tier string, _ []string, out *sx.Out) {
 					pk.Connect.ProtocolName = []byte("XQTT") // refused before authentication
 					ok = false
 				}
-				nc := b.Connect("10.0.0.1:1", pk)
-				b.Drain()
+				nc := r.connect(pk)
+				r.drain()
 				evs := b.Rec.Drain()
 				if ok {
 					r.cur[id] = nc
@@ -242,10 +300,10 @@ func engStats(seed int64, tier string, _ []string, out *sx.Out) {
 				}
 				pid := uint16(1 + rng.Intn(4))
 				pk := broker.SubscribePk(pid, subs...)
-				_ = b.SendPacket(c, pk)
+				_ = r.send(c, pk)
 				evs := b.Rec.Drain()
 				codes := []byte{}
-				for _, o := range b.Drain() {
+				for _, o := range r.drain() {
 					if o.Conn == c.Idx {
 						for _, q := range o.Packets {
 							if q.FixedHeader.Type == packets.Suback {
@@ -272,9 +330,9 @@ func engStats(seed int64, tier string, _ []string, out *sx.Out) {
 					fl = append(fl, sx.L{sx.S(f), sx.S(subKey(f))})
 				}
 				pid := uint16(1 + rng.Intn(4))
-				_ = b.SendPacket(c, broker.UnsubscribePk(pid, fs...))
+				_ = r.send(c, broker.UnsubscribePk(pid, fs...))
 				evs := b.Rec.Drain()
-				b.Drain()
+				r.drain()
 				after := b.Srv.VerifSnapshot()
 				r.end(sx.L{sx.L{sx.N(4), sx.S(id), sx.N(uint64(pid)), fl, immediate(before, after, id, pid, false)}}, evs, "")
 			case k < 66: // PUBLISH
@@ -300,9 +358,9 @@ func engStats(seed int64, tier string, _ []string, out *sx.Out) {
 				if bc := snapClient(before, id); bc != nil && bc.RecvQuota == 0 {
 					rejected = true
 				}
-				_ = b.SendPacket(c, pk)
+				_ = r.send(c, pk)
 				evs := b.Rec.Drain()
-				b.Drain()
+				r.drain()
 				after := b.Srv.VerifSnapshot()
 				rop := 0
 				if retain {
@@ -341,35 +399,67 @@ func engStats(seed int64, tier string, _ []string, out *sx.Out) {
 				if c.Version < 5 {
 					bad = false // no reason code travels in MQTT 3 acknowledgements
 				}
-				_ = b.SendPacket(c, pk)
+				_ = r.send(c, pk)
 				evs := b.Rec.Drain()
-				b.Drain()
+				r.drain()
 				after := b.Srv.VerifSnapshot()
 				r.end(sx.L{sx.L{sx.N(6), sx.S(id), sx.N(uint64(ty)), sx.N(uint64(pid)), sx.Bool(bad),
 					immediate(before, after, id, pid, true)}}, evs, "")
+			case k < 85 && h%2 == 0: // the write of the broker's answer fails (broken connection): the answer stays in flight
+				c.MC.WriteErr = io.ErrClosedPipe
+				var op sx.L
+				bc := snapClient(before, id)
+				var pubrec *mqtt.VerifInflight
+				if bc != nil {
+					for j := range bc.Inflight {
+						if bc.Inflight[j].Type == packets.Pubrec {
+							pubrec = &bc.Inflight[j]
+						}
+					}
+				}
+				if pubrec != nil && rng.Intn(2) == 0 { // PUBREL of an open inbound QoS 2 flow
+					_ = r.send(c, broker.AckPk(packets.Pubrel, pubrec.PacketID, 0))
+					op = sx.L{sx.N(12), sx.S(id), sx.N(uint64(pubrec.PacketID))}
+				} else {
+					qos := byte(1 + rng.Intn(2))
+					pid := uint16(1 + rng.Intn(4))
+					topic := topics[rng.Intn(len(topics))]
+					retain := rng.Intn(4) == 0
+					rejected := bc != nil && bc.RecvQuota == 0
+					_ = r.send(c, broker.PublishPk(topic, []byte("m"), qos, retain, pid))
+					rop := 0
+					if retain {
+						rop = 1
+					}
+					op = sx.L{sx.N(11), sx.S(id), sx.N(uint64(qos)), sx.N(uint64(pid)), sx.N(uint64(rop)), sx.S(topic), sx.Bool(rejected)}
+				}
+				c.MC.WriteErr = nil
+				evs := b.Rec.Drain()
+				r.end(sx.L{op}, evs, "")
 			case k < 88: // the client goes away
 				ops := sx.L{}
 				switch rng.Intn(3) {
 				case 0: // DISCONNECT and PINGREQ run through processPacket like every packet (deferred-send tail included)
-					_ = b.SendPacket(c, broker.DisconnectPk(0))
+					_ = r.send(c, broker.DisconnectPk(0))
 					ops = sx.L{sx.L{sx.N(6), sx.S(id), sx.N(packets.Disconnect), sx.N(0), sx.N(0),
 						immediate(before, b.Srv.VerifSnapshot(), id, 0, false)}}
 				case 1:
-					_ = b.SendPacket(c, broker.PingPk())
+					_ = r.send(c, broker.PingPk())
 					ops = sx.L{sx.L{sx.N(6), sx.S(id), sx.N(packets.Pingreq), sx.N(0), sx.N(0),
 						immediate(before, b.Srv.VerifSnapshot(), id, 0, false)}}
 				default:
 					b.NetClose(c)
 				}
 				evs := b.Rec.Drain()
-				b.Drain()
+				r.drain()
 				r.end(ops, evs, "")
 			default: // housekeeping
 				at := now + []int64{0, 3, 7, 12, 200}[rng.Intn(5)]
 				kind := []string{"clients", "retained", "inflight", "sys", "inflight", "retained"}[rng.Intn(6)]
 				b.Tick(kind, at)
+				r.sysTick = kind == "sys"
 				evs := b.Rec.Drain()
-				b.Drain()
+				r.drain()
 				var op sx.L
 				switch kind {
 				case "clients":
